@@ -174,6 +174,98 @@ for _i, _p in enumerate(PATTERNS):
        out='other patterns; longer strings; code points outside 48..100')(_mk_regex_ob(_p))
 
 
+# ------------------------------------------------------------------ constraints inherited from several bases
+class _Small(int, Rule):
+    le = 10
+
+
+class _Even(int, Rule):
+    multiple_of = 2
+
+
+class _SmallEven(_Small, _Even):
+    pass
+
+
+class _EvenSmallPos(_Even, _Small):
+    gt = 0
+
+
+class _Lower(str, Rule):
+    regex = '[a-z]*'
+
+
+class _Short(str, Rule):
+    max_length = 2
+
+
+class _LowerShort(_Lower, _Short):
+    pass
+
+
+class _Uniq(list, Rule):
+    unique_items = True
+
+
+class _Pair(list, Rule):
+    max_length = 2
+
+
+class _UniqPair(_Uniq, _Pair):
+    pass
+
+
+class _Deep(_SmallEven):
+    ge = -4
+
+
+@ob('inherited-constraints', marks=['accept', 'reject'], budget=(60, 150),
+    bounds='Rule classes assembled from two Rule bases (with and without constraints of their own; one more level of inheritance): '
+           'le=10 + multiple_of=2 (+ gt=0 / ge=-4) on unbounded solver ints, regex + max_length on symbolic strings (<= 3 chars), '
+           'unique_items + max_length on lists of <= 3 small ints: accepted exactly when every inherited constraint holds')
+def inherited_constraints(V):
+    which = V.pick('type', ['SmallEven', 'EvenSmallPos', 'Deep', 'LowerShort', 'UniqPair'])
+    if which in ('SmallEven', 'EvenSmallPos', 'Deep'):
+        x = V.int('x')
+        expect = x <= 10 and x % 2 == 0 and (which != 'EvenSmallPos' or x > 0) and (which != 'Deep' or x >= -4)
+        T = {'SmallEven': _SmallEven, 'EvenSmallPos': _EvenSmallPos, 'Deep': _Deep}[which]
+    elif which == 'LowerShort':
+        x = V.str('s', 3, lo=60, hi=123)
+        expect = len(x) <= 2 and all('a' <= c <= 'z' for c in x)
+        T = _LowerShort
+    else:
+        x = [V.int('e%d' % i, 0, 2) for i in range(V.pick('n', [0, 1, 2, 3]))]
+        expect = len(x) <= 2 and not (len(x) == 2 and x[0] == x[1])
+        T = _UniqPair
+    verdicts(V, T, x, True if expect else False, 'inherited', lambda: '%s x=%r' % (which, x))
+
+
+EDGE_CORES = {'[a-c]+': 'ab', r'\d{2,3}': '12', 'a|bc': 'bc', '(ab)*c?': 'abc', 'a.c': 'abc', '[^a]b': 'cb', '(?i)ab': 'AB', '^ab$': 'ab',
+              'a$|b': 'a'}
+
+
+@ob('regex/line-ends', marks=['accept', 'reject'], budget=(60, 150),
+    bounds='patterns %r and the library types SlugStr / EmailStr; input = a matching core with a picked prefix and suffix from '
+           '{"", "\\n", "\\r\\n", "\\n\\n", " ", "\\x00", "\\u2028"} (where `$`, `^`, match() and fullmatch() differ): accepted exactly when '
+           're.fullmatch accepts' % sorted(EDGE_CORES))
+def regex_line_ends(V):
+    from utype import types as _t
+    which = V.pick('type', sorted(EDGE_CORES) + ['SlugStr', 'EmailStr'])
+    edges = ['', chr(10), chr(13) + chr(10), chr(10) + chr(10), ' ', chr(0), chr(0x2028)]
+    pre, suf = V.pick('prefix', edges), V.pick('suffix', edges)
+    if which == 'SlugStr':
+        T, pat, core = _t.SlugStr, _t.SlugStr.regex, 'my-slug'
+    elif which == 'EmailStr':
+        T, pat, core = _t.EmailStr, _t.EmailStr.regex, 'dev@utype.io'
+    else:
+        pat, core = which, EDGE_CORES[which]
+        with V.notrace():
+            T = Rule.annotate(str, constraints={'regex': pat})
+    x = pre + core + suf
+    expect = re.fullmatch(pat, x) is not None
+    verdicts(V, T, x, expect, 'regex:line-ends', lambda: 'pattern=%r s=%r' % (pat, x))
+
+
 # ------------------------------------------------------------------ (e) const: type-exact equality
 class Color(Enum):
     RED = 1
